@@ -9,7 +9,8 @@ from . import common
 
 
 def main():
-    import gc
+    import gc, logging
+    logging.disable(logging.WARNING)      # catch(warn=True) logs every dropped example
     gc.disable()          # see common.tick()
     ap = argparse.ArgumentParser()
     ap.add_argument('prop')
